@@ -392,7 +392,39 @@ def run_halfturn_eq(ctx, p):
     ctx.nontrivial('halfturn_eq', which, np.round(ax, 9).tolist(), p.get('k'))
 
 
-RUNNERS = {'shared_multi': run_shared_multi, 'halfturn_eq': run_halfturn_eq, 'multirep': run_multirep, 'shared': run_shared, 'doublecover': run_doublecover, 'embed': run_embed}
+def run_multiconv(ctx, p):
+    """conversions of an object holding several (up to 100) rotations or rigid motions, exact half turns among them: value k of
+    the converted object describes motion k -- judged against the matrices the object was built from, not against the single-
+    valued conversion"""
+    import spatialmath as sm
+
+    def md(a_, b_):
+        a_, b_ = np.asarray(a_, dtype=np.float64), np.asarray(b_, dtype=np.float64)
+        return float(np.max(np.abs(a_ - b_))) if a_.shape == b_.shape and np.all(np.isfinite(a_)) else math.inf
+    Ms = [np.asarray(m, dtype=np.float64) for m in p['mats']]
+    rigid = Ms[0].shape == (4, 4)
+    sig = dict(api='multiconv', rigid=rigid, n=core.band(len(Ms)))
+    try:
+        X = (sm.SE3 if rigid else sm.SO3)(Ms)
+        q = sm.UnitQuaternion(X)
+        back = [np.asarray(r_, dtype=np.float64) for r_ in (q.SO3().data if len(q) == len(Ms) else [])]
+        ok = len(q) == len(Ms) and all(md(b_, m_[:3, :3]) <= TOL for b_, m_ in zip(back, Ms))
+        ctx.judge('backconv', ok, dict(sig, kind='sequence_to_quaternion_wrong'),
+                  lambda: 'UnitQuaternion(%s of %d values).SO3(): %d values, worst difference %.3g' % (type(X).__name__, len(Ms), len(q), max([md(b_, m_[:3, :3]) for b_, m_ in zip(back, Ms)] or [math.inf])))
+        if rigid:
+            tw = X.Twist3()
+            Y = tw.SE3()
+            sc = max(1.0, max(float(np.max(np.abs(m_[:3, 3]))) for m_ in Ms))
+            ok = len(tw) == len(Ms) and len(Y) == len(Ms) and all(md(y_, m_) <= TOL * sc for y_, m_ in zip(Y.data, Ms))
+            ctx.judge('backconv', ok, dict(sig, kind='sequence_to_twist_wrong'), lambda: 'SE3 of %d values .Twist3().SE3(): %d values' % (len(Ms), len(Y)))
+    except Exception as e:
+        ctx.bad('backconv', dict(sig, kind='raised', exc=type(e).__name__, where=_where(e)), 'conversions of a %d-valued object raised %r' % (len(Ms), e))
+        return
+    ctx.cell('multiconv', rigid, sig['n'])
+    ctx.nontrivial('multiconv', rigid, len(Ms), [float('%.9g' % x) for x in Ms[0].reshape(-1)])
+
+
+RUNNERS = {'multiconv': run_multiconv, 'shared_multi': run_shared_multi, 'halfturn_eq': run_halfturn_eq, 'multirep': run_multirep, 'shared': run_shared, 'doublecover': run_doublecover, 'embed': run_embed}
 
 
 def REACH():
@@ -457,8 +489,15 @@ def run(ctx):
         drive(RUNNERS, ctx, 'shared', dict(name=nm, args=args, kwargs=kw))
     for _ in range(ctx.scale(150, 3000)):
         n = int(rng.integers(2, 8))
+        if rng.random() < 0.1:
+            n = int([16, 64, 65, 100][rng.integers(4)])        # many angles (a vectorised path would show here)
         drive(RUNNERS, ctx, 'shared_multi', dict(name=['Rx', 'Ry', 'Rz'][rng.integers(3)], angles=[gen.angle(rng) for _ in range(n)],
                                                  unit=['rad', 'deg'][rng.integers(2)], form=['list', 'tuple', 'array'][rng.integers(3)]))
+    for _ in range(ctx.scale(120, 2500)):
+        n = int([2, 3, 5, 8, 16, 17, 40, 100][rng.integers(8)])
+        rigid = bool(rng.integers(2))
+        mats = [ref.rt2tr(rot_near(rng), gen.transl(rng, hi=1e3)) if rigid else rot_near(rng) for _ in range(n)]
+        drive(RUNNERS, ctx, 'multiconv', dict(mats=mats))
     for _ in range(ctx.scale(200, 4000)):
         drive(RUNNERS, ctx, 'doublecover', dict(q=gen.unit_quat(rng), other=gen.unit_quat(rng)))
         if rng.random() < 0.15:
